@@ -163,6 +163,23 @@ Proof.
   intros ds p l d v. apply add_keeps_paths. exact Ha.
 Qed.
 
+(* Process-wide options (app.Settings) are applied by every Run AFTER the options of the call:
+   the configured loader list is that of the one sequence ops ++ globals. *)
+Theorem c15_process_wide_options_last : forall v osargs ops globals,
+  configured_run v osargs ops globals = fold_left (apply_opt v) globals (configured v osargs ops).
+Proof. exact configured_run_after. Qed.
+
+(* So a process-wide SetConfigLoader replaces whatever the call configured (os.Args loader included),
+   and process-wide options that only add keep every loader of the call, in place. *)
+Theorem c15_process_wide_set_replaces : forall v osargs ops g1 ls g2,
+  configured_run v osargs ops (g1 ++ OSetConfigLoader ls :: g2) = fold_left (apply_opt v) g2 ls.
+Proof. exact configured_run_global_set. Qed.
+
+Theorem c15_process_wide_adding_keeps : forall osargs ops globals,
+  Forall (fun o => is_adding o = true) globals ->
+  exists added, configured_run Repaired osargs ops globals = configured Repaired osargs ops ++ added.
+Proof. exact configured_run_global_adding. Qed.
+
 (* D-C15a: the unrepaired AddConfigLoader (SetLoaders) discards an earlier loader *)
 Theorem c15_add_monotone_refuted :
   exists cur o l, is_adding o = true /\ In l cur /\ ~ In l (apply_opt Unrepaired cur o).
@@ -349,3 +366,8 @@ Proof.
   cbv zeta. split; [reflexivity|]. split; [vm_compute; reflexivity|]. split; [repeat constructor|].
   split; [right; left; reflexivity|]. repeat split.
 Qed.
+
+Example c15_process_wide_example :
+  configured_run Repaired ex_args [OSetConfig ex_file] [OAddConfigLoader [ex_raw]] = [ex_args; ex_file; ex_raw] /\
+  configured_run Repaired ex_args [OSetConfig ex_file] [OSetConfigLoader [ex_raw]] = [ex_raw].
+Proof. split; reflexivity. Qed.
